@@ -983,6 +983,57 @@ def r10(ctx, R):
         R.undecided("C03.R10", "indexing code", "push/pop pairs", ("fortls/parsers/internal/parser.py", 1), "no pop() directly after a push found")
 
 
+# ------------------------------------------------------------------- R11
+def r11(ctx, R):
+    """A `for` loop over a list ends when the list ends.  A body that extends the
+    very list being iterated (`xs += ..`, `xs.append/extend/insert`) has no bound
+    unless the growth is cut by a visited test; with document-controlled content
+    (macros naming each other, scopes including each other) it never finishes."""
+    R.rule("C03.R11", "no loop of the indexing code extends the list it iterates (unless the growth is cut by a visited-set test)", floor=1, confirmed=1)
+    n = 0
+    for q, f in sorted(ctx.m.funcs.items()):
+        if not (f.rel.startswith("fortls/parsers/") or f.rel.endswith("helper_functions.py")):
+            continue
+        for lp in (x for x in ctx.m.walk_own(f.node) if isinstance(x, ast.For)):
+            it = lp.iter
+            # `for x in xs`, `for i, x in enumerate(xs)`
+            if isinstance(it, ast.Call) and isinstance(it.func, ast.Name) and it.func.id == "enumerate" and it.args:
+                it = it.args[0]
+            p_ = access_path(it)
+            if not p_:
+                continue
+            n += 1
+            grow = None
+            for s_ in lp.body:
+                for x in ast.walk(s_):
+                    if isinstance(x, ast.AugAssign) and isinstance(x.op, ast.Add) and access_path(x.target) == p_:
+                        grow = x
+                    elif isinstance(x, ast.Call) and isinstance(x.func, ast.Attribute) and x.func.attr in ("append", "extend", "insert") and access_path(x.func.value) == p_:
+                        grow = x
+            if grow is None:
+                continue
+            # a visited test: the growth sits under `not in S` where S grows in the same loop
+            guarded = False
+            node = grow
+            par = ctx.m.parent.get(node)
+            while par is not None and par is not lp:
+                if isinstance(par, ast.If):
+                    for t in ast.walk(par.test):
+                        if isinstance(t, ast.Compare) and len(t.ops) == 1 and isinstance(t.ops[0], ast.NotIn):
+                            s_name = access_path(t.comparators[0])
+                            if s_name and any(isinstance(y, ast.Call) and isinstance(y.func, ast.Attribute) and y.func.attr in ("add", "append") and access_path(y.func.value) == s_name for z in lp.body for y in ast.walk(z)):
+                                guarded = True
+                node, par = par, ctx.m.parent.get(par)
+            k = key(f, lp)[:90]
+            if guarded:
+                R.ok("C03.R11", f.short, k, loc(f, grow), "growth cut by a visited test")
+            else:
+                R.violation("C03.R11", f.short, k, loc(f, grow), f"the loop iterates `{p_}` and its body extends `{p_}` (line {grow.lineno}) with no visited test: whenever the appended items make the body append again - macros whose bodies name each other, constructs that refer to each other - the loop never reaches the end of the list and indexing does not return")
+    if n < 10:
+        raise AnalysisError(f"C03.R11: only {n} list loops found in the indexing code")
+    R.ok("C03.R11", "fortls/parsers", f"{n} loops over a named list examined", "fortls/parsers", "none extends its own list without a visited test") if not any(i.rule == "C03.R11" and i.verdict == "violation" for i in R.insts) else None
+
+
 def run(ctx, R):
     r1(ctx, R)
     r2(ctx, R)
@@ -994,3 +1045,4 @@ def run(ctx, R):
     r8(ctx, R)
     r9(ctx, R)
     r10(ctx, R)
+    r11(ctx, R)
